@@ -46,6 +46,7 @@ OPERATIONS = [
     "ItemSpaceParent.set_formula", "ItemSpaceParent.del_formula",
     "CellsImpl.set_value", "CellsImpl.set_value_from_key", "UserCellsImpl.set_doc",
     "UserCellsImpl.on_set_property", "UserCellsImpl.on_rename", "CellsImpl.__init__",
+    "CellsMaker.create_or_change_cells",
 ]
 EXCLUDED = {
     "SpaceUpdater.copy_space": "composite of new_space/copy_cells: inner validations re-check names already accepted in the source",
